@@ -18,7 +18,7 @@ import os, re, json, glob, subprocess
 from vpkg.core import Unit, REPO, VERIF, base_cflags, run
 from vpkg import csrc
 
-SERVES = ["C11", "C10", "C13", "C12"]
+SERVES = ["C11", "C10", "C13", "C12", "C01"]
 RANK = {l: i for i, l in enumerate(csrc.LOCKS)}
 INIT_ROOTS = ["bidib_state_init"]
 
@@ -429,6 +429,11 @@ def generate(prop, tier, workdir):
             props.append("C13")
         if prop == "C13" and "C13" not in props:
             continue
+        if prop == "C01":
+            # "exactly once, never dropped, under every interleaving of senders and flushes": the send buffer is only touched under its mutex
+            if not f.file.endswith("bidib_transmission_send.c"):
+                continue
+            props.append("C01")
         if prop == "C12":
             # "cannot stop processing subsequent packets": the functions that run on the receiver thread
             if not (f.file.endswith("bidib_state_setter.c") or f.file.endswith("bidib_transmission_receive.c") or f.file.endswith("bidib_transmission_node_states.c")):
@@ -452,7 +457,7 @@ def generate(prop, tier, workdir):
             remove_bodies=others, link_objs=[(stub_obj, sorted(keep & stubbed))],
             stub_builtins=True, std_checks=False, timeout=600, mem_gb=12, object_bits=8,
             only_re=r"C1[01]\.|loop_invariant_(base|step)",
-            prop_filter={"C10": r"C1[01]\.|loop_invariant", "C11": r"C11\.|loop_invariant", "C13": r"C11\.|loop_invariant", "C12": r"C11\.|loop_invariant"},
+            prop_filter={"C01": r"C1[01]\.|loop_invariant", "C10": r"C1[01]\.|loop_invariant", "C11": r"C11\.|loop_invariant", "C13": r"C11\.|loop_invariant", "C12": r"C11\.|loop_invariant"},
             min_obligations=15, covers=1, internal_is_property=True, stubbed_contracts=contracted,
             note="lock-discipline unit (E2): data fully abstracted (nondeterministic callee results and pointers; DFCC frame "
                  "checks on abstracted data are not obligations of this unit); tracked: the 15-lock ghost vector. "
